@@ -39,6 +39,13 @@ then leaves before it compares any file -- and afterwards the file put back to a
 execution saw: stale, or rewritten/left so that the checker calls it unmodified w.r.t. the LAST one: unchanged),
 at the level of the operations on the three backends and as whole `doit run` command lines (explore_e2e).
 The first oracle finding of each shape is shrunk (shrink: greedy removal of operations, then of items of a definition).
+
+Family `session` (harness/c03_session.py, run from run() below; object model: coq/Model/ItemObj.v): everything above creates its Task and
+uptodate item objects anew for every operation / command line, as a `doit` process does.  There the dodo namespace OUTLIVES one run:
+several DoitMain.run / doit.api.run_tasks calls, commands and process restarts over one namespace whose configuration dicts, flags,
+result sources and DOIT_CONFIG are edited IN PLACE between the runs, with item instances created once per process (shared by tasks),
+once per load, or detached; judged by a shadow of the items' declared inputs, compared with run_task of History.v and, for one real
+config_changed instance, with cc_life of ItemObj.v.
 """
 import io, os, sys, hashlib, json
 import common
@@ -57,6 +64,7 @@ VKEYS = ['run-once', '_config_changed', 'u0', 'u1', 'u2', '_result:T0', '_result
 CK_NAME = {'md5': 'MD5Checker', 'ts': 'TimestampChecker'}
 CK_Z = {'MD5Checker': 1, 'TimestampChecker': 2, None: 0}
 STATUS_Z = {'up-to-date': 0, 'run': 1, 'error': 2}
+CFG_DIGEST = {}     # md5 of a configuration dict -> content id (filled by c03_session.py, which uses dict configurations)
 
 
 def mask(xs):
@@ -426,7 +434,7 @@ class World:
                 if x is None:
                     out.append(-1)
                 elif key == '_config_changed':
-                    out.append(int(x[3:]) if isinstance(x, str) and x.startswith('cfg') else 91)
+                    out.append(int(x[3:]) if isinstance(x, str) and x.startswith('cfg') else CFG_DIGEST.get(x, 91))
                 elif key.startswith('_result:'):
                     out.append(RESULT_MD5.get(x, 93))
                 else:
@@ -1511,14 +1519,22 @@ def run(ctx):
     out.rule = RULE
     explore(ctx, out)
     explore_e2e(ctx, out)
+    import c03_session                          # family `session`: the namespace outlives one run (item instances, dicts edited in place)
+    out.rule = RULE + c03_session.RULE
+    c03_session.explore_session(ctx, out)
+    c03_session.explore_instances(ctx, out)
     shrink_findings(ctx, out, c04=False)
     out.extra['c04_oracle_findings_seen_here'] = len(out.c04_violations)
     out.assumptions = ['FS-fresh: a write never leaves the mtime unchanged (needed by the md5 "same mtime: keep the old state" optimisation; '
                        'C03_md5_same_mtime_refuted shows it cannot be dropped)',
                        'callables / shell commands in uptodate are oracles (Some true / Some false / None); result_dep on a group task and '
                        'tools.timeout / check_timestamp_unchanged are not modelled',
-                       'keys produced by the actions (task.values) are distinct from the reserved keys run-once, _config_changed, _result:*']
+                       'keys produced by the actions (task.values) are distinct from the reserved keys run-once, _config_changed, _result:*',
+                       'family session: a task holds at most one config_changed item (the saved key _config_changed is one per task); the inputs of '
+                       'the items are edited between runs, never by an action while a run is going on; runs of a session are serial']
     out.extra['trusted_base'] = ['harness/c03.py: World (translation of operations to calls of the real classes), Shadow (oracle), encoders',
+                                 'harness/c03_session.py: Session (one namespace used by many runs), SessShadow (oracle on declared inputs), '
+                                 'translation of session histories to the run-level model; digest of a configuration dict = the harness\'s own md5 of its sorted JSON',
                                  'md5 oracle = identity on content ids (the 5 byte strings used have distinct digests); size oracle = their lengths']
     return out
 
@@ -1528,7 +1544,10 @@ def replay(ctx, payload):
     out.c04_violations = []
     case = payload.get('case', {})
     h = [tuple(o) for o in case.get('history', [])]
-    if any(o[0] in ('Run', 'Forget') for o in h):
+    if case.get('session') or 'life' in case:
+        import c03_session
+        c03_session.replay(ctx, payload, out)
+    elif any(o[0] in ('Run', 'Forget') for o in h):
         b = case.get('backend', 'json')
         print(b, run_e2e(ctx, b, h, out))
     else:
